@@ -402,4 +402,313 @@ theorem dec_fold (h : Heap) (c : Nat) (std : StdNames h c) (kind : RecKind) (att
       simp only [QName.same, huri, beq_eq_false_iff_ne, ne_eq]
       exact this
 
+/-! ### the arguments the reader hands to `add_attributes`, each tied to the stored pair it stands for -/
+
+def fItem (h : Heap) (c : Nat) (p : QName × List Value) : List (AttrArg × QName × Value) :=
+  match p.2 with
+  | [] => []
+  | v :: _ =>
+    if isRefAttr p.1 then
+      (match v with
+       | .qn q => [({ name := .qn (nameOf h c p.1), value := .val (.qn (refOf h c q)) }, p.1, .qn q)]
+       | _ => [])
+    else if isTimeAttr p.1 then
+      (match v with
+       | .dt t => [({ name := .qn (nameOf h c p.1), value := .val (.dt t) }, p.1, .dt t)]
+       | _ => [])
+    else []
+
+def oItem (h : Heap) (c : Nat) (p : QName × List Value) : List (AttrArg × QName × Value) :=
+  if isProvAttr p.1 then []
+  else p.2.map (fun v => ({ name := .qn (nameOf h c p.1), value := (dvOf h c v).value, flt := (dvOf h c v).flt }, p.1, v))
+
+theorem fItem_args (h : Heap) (c : Nat) (p : QName × List Value) :
+    (fItem h c p).map (·.1) = (fEntry h c p).map (fun e => { name := .qn e.1, value := e.2 }) := by
+  obtain ⟨a, vs⟩ := p
+  cases vs with
+  | nil => simp [fItem, fEntry]
+  | cons v more =>
+    simp only [fItem, fEntry]
+    split
+    · cases v <;> simp
+    · split
+      · cases v <;> simp
+      · simp
+
+theorem oItem_args (h : Heap) (c : Nat) (p : QName × List Value) : (oItem h c p).map (·.1) = oArgs h c p := by
+  simp only [oItem, oArgs]
+  split <;> simp
+
+theorem fItem_length (h : Heap) (c : Nat) (p : QName × List Value) : (fItem h c p).length ≤ 1 := by
+  obtain ⟨a, vs⟩ := p
+  cases vs with
+  | nil => simp [fItem]
+  | cons v more =>
+    simp only [fItem]
+    split
+    · cases v <;> simp
+    · split
+      · cases v <;> simp
+      · simp
+
+theorem fItem_name (h : Heap) (c : Nat) (p : QName × List Value) : ∀ it ∈ fItem h c p, it.2.1 = p.1 := by
+  obtain ⟨a, vs⟩ := p
+  cases vs with
+  | nil => simp [fItem]
+  | cons v more =>
+    intro it hit
+    simp only [fItem] at hit
+    split at hit
+    · cases v <;> simp_all
+    · split at hit
+      · cases v <;> simp_all
+      · simp at hit
+
+theorem oItem_name (h : Heap) (c : Nat) (p : QName × List Value) :
+    ∀ it ∈ oItem h c p, it.2.1 = p.1 ∧ isProvAttr p.1 = false := by
+  intro it hit
+  simp only [oItem] at hit
+  split at hit
+  · simp at hit
+  · next hp =>
+    obtain ⟨v, _, rfl⟩ := List.mem_map.mp hit
+    exact ⟨rfl, by simpa using hp⟩
+
+/-- every formal item stands for the stored pair it was read from -/
+theorem fItem_for (h : Heap) (c : Nat) (p : QName × List Value) (hr : PairReadable h c p)
+    (hok : ∀ v ∈ p.2, PairOk p.1 v ∧ valOk v) :
+    ∀ it ∈ fItem h c p, ArgFor it.1 it.2.1 it.2.2 ∧ valOk it.2.2 ∧ it.2.2 ∈ p.2 := by
+  obtain ⟨_, huri⟩ := nameOf_spec hr
+  obtain ⟨a, vs⟩ := p
+  cases vs with
+  | nil => simp [fItem]
+  | cons v more =>
+    intro it hit
+    have hv := hok v List.mem_cons_self
+    simp only [fItem] at hit
+    split at hit
+    · next href =>
+      cases v with
+      | qn q =>
+        simp only [List.mem_singleton] at hit
+        subst hit
+        obtain ⟨q0, hq0, hq⟩ := hr.ref href (.qn q) more rfl
+        cases hq0
+        obtain ⟨q', hq', hqu⟩ := jsonName_of_readsAs hq
+        have hro : refOf h c q = q' := by simp [refOf, hq']
+        refine ⟨?_, hv.2, List.mem_cons_self⟩
+        simp only [hro]
+        refine argFor_formal a (nameOf h c a) huri (.qn q) (.qn q') ?_ hqu
+        obtain ⟨h1, h2, h3⟩ := hv.1
+        exact ⟨fun _ => rfl, fun ht => by simpa [isDt] using h2 ht, fun hp => by simp [isProvAttr, href] at hp⟩
+      | _ => simp at hit
+    · split at hit
+      · cases v with
+        | dt t =>
+          simp only [List.mem_singleton] at hit
+          subst hit
+          exact ⟨argFor_formal a (nameOf h c a) huri (.dt t) (.dt t) hv.1 (vEq_refl _), hv.2, List.mem_cons_self⟩
+        | _ => simp at hit
+      · simp at hit
+
+/-- every other item stands for the stored pair it was read from -/
+theorem oItem_for (h : Heap) (c : Nat) (std : StdNames h c) (p : QName × List Value) (hr : PairReadable h c p)
+    (hok : ∀ v ∈ p.2, PairOk p.1 v ∧ valOk v) :
+    ∀ it ∈ oItem h c p, ArgFor it.1 it.2.1 it.2.2 ∧ valOk it.2.2 ∧ it.2.2 ∈ p.2 := by
+  obtain ⟨_, huri⟩ := nameOf_spec hr
+  intro it hit
+  simp only [oItem] at hit
+  split at hit
+  · simp at hit
+  · next hp =>
+    have hnp : isProvAttr p.1 = false := by simpa using hp
+    obtain ⟨v, hv, rfl⟩ := List.mem_map.mp hit
+    obtain ⟨dv, hdv, hconv⟩ := c01_value_any h c std v (hr.other hnp v hv)
+    have hd : dvOf h c v = dv := by simp [dvOf, hdv]
+    exact ⟨by simpa [hd] using argFor_other p.1 (nameOf h c p.1) huri hnp v dv.value dv.flt hconv, (hok v hv).2, hv⟩
+
+/-! ### the record -/
+
+theorem formalOk_of_stored (r : Record) (hs : Stored r) (p : QName × List Value) (hp : p ∈ r.attrs) : FormalOk p := by
+  intro v more hv
+  have hx : (p.1, v) ∈ r.flat := (mem_flat_iff r (p.1, v)).mpr ⟨p, hp, rfl, by rw [hv]; exact List.mem_cons_self⟩
+  obtain ⟨⟨h1, h2, _⟩, _⟩ := hs.pairs (p.1, v) hx
+  refine ⟨fun href => ?_, fun _ ht => ?_⟩
+  · have := h1 href
+    cases v <;> simp_all [isQn, formalText]
+  · have := h2 ht
+    cases v <;> simp_all [isDt, formalText]
+
+def itemsOf (h : Heap) (c : Nat) (r : Record) : List (AttrArg × QName × Value) :=
+  r.attrs.flatMap (fItem h c) ++ r.attrs.flatMap (oItem h c)
+
+theorem items_args (h : Heap) (c : Nat) (r : Record) :
+    (itemsOf h c r).map (·.1) =
+      (r.attrs.flatMap (fEntry h c)).map (fun e => ({ name := .qn e.1, value := e.2 } : AttrArg)) ++
+        r.attrs.flatMap (oArgs h c) := by
+  simp only [itemsOf, List.map_append, List.map_flatMap, fItem_args, oItem_args]
+
+theorem stored_ok (r : Record) (hs : Stored r) : ∀ p ∈ r.attrs, ∀ v ∈ p.2, PairOk p.1 v ∧ valOk v := fun p hp v hv =>
+  hs.pairs (p.1, v) ((mem_flat_iff r (p.1, v)).mpr ⟨p, hp, rfl, hv⟩)
+
+theorem items_for (h : Heap) (c : Nat) (std : StdNames h c) (r : Record) (hs : Stored r)
+    (hrd : ∀ p ∈ r.attrs, PairReadable h c p) :
+    ∀ it ∈ itemsOf h c r, ArgFor it.1 it.2.1 it.2.2 ∧ valOk it.2.2 ∧ (it.2.1, it.2.2) ∈ r.flat := by
+  intro it hit
+  rcases List.mem_append.mp hit with h1 | h1
+  · obtain ⟨p, hp, hip⟩ := List.mem_flatMap.mp h1
+    obtain ⟨f1, f2, f3⟩ := fItem_for h c p (hrd p hp) (stored_ok r hs p hp) it hip
+    exact ⟨f1, f2, (mem_flat_iff r _).mpr ⟨p, hp, fItem_name h c p it hip, f3⟩⟩
+  · obtain ⟨p, hp, hip⟩ := List.mem_flatMap.mp h1
+    obtain ⟨f1, f2, f3⟩ := oItem_for h c std p (hrd p hp) (stored_ok r hs p hp) it hip
+    exact ⟨f1, f2, (mem_flat_iff r _).mpr ⟨p, hp, (oItem_name h c p it hip).1, f3⟩⟩
+
+theorem pairwise_of_length_le_one {α : Type} (R : α → α → Prop) : ∀ (l : List α), l.length ≤ 1 → l.Pairwise R
+  | [], _ => List.Pairwise.nil
+  | [_], _ => List.pairwise_singleton _ _
+  | _ :: _ :: _, h => absurd h (by simp)
+
+theorem keys_pairwise (r : Record) (hs : Stored r) : r.attrs.Pairwise (fun p q => p.1.uri ≠ q.1.uri) := by
+  have := hs.keys
+  unfold List.Nodup at this
+  rwa [List.pairwise_map] at this
+
+theorem oItem_notProv (h : Heap) (c : Nat) (r : Record) :
+    ∀ y ∈ r.attrs.flatMap (oItem h c), isProvAttr y.2.1 = false := by
+  intro y hy
+  obtain ⟨p, _, hip⟩ := List.mem_flatMap.mp hy
+  obtain ⟨e1, e2⟩ := oItem_name h c p y hip
+  rw [e1]; exact e2
+
+theorem items_norepeat (h : Heap) (c : Nat) (r : Record) (hs : Stored r) : NoRepeatA (itemsOf h c r) := by
+  unfold NoRepeatA itemsOf
+  rw [List.pairwise_append]
+  refine ⟨?_, ?_, ?_⟩
+  · rw [List.pairwise_flatMap]
+    refine ⟨fun p _ => pairwise_of_length_le_one _ _ (fItem_length h c p), (keys_pairwise r hs).imp ?_⟩
+    intro p1 p2 hne x hx y hy _
+    rw [fItem_name h c p1 x hx, fItem_name h c p2 y hy]; exact hne
+  · exact List.pairwise_of_forall_mem_list (fun x _ y hy hp => by
+      rw [oItem_notProv h c r y hy] at hp; exact absurd hp (by simp))
+  · intro x _ y hy hp
+    rw [oItem_notProv h c r y hy] at hp; exact absurd hp (by simp)
+
+/-- every stored pair has its item -/
+theorem items_cover (h : Heap) (c : Nat) (r : Record) (hs : Stored r) :
+    ∀ x ∈ r.flat, ∃ it ∈ itemsOf h c r, it.2.1 = x.1 ∧ it.2.2 = x.2 := by
+  intro x hx
+  obtain ⟨p, hp, hx1, hx2⟩ := (mem_flat_iff r x).mp hx
+  by_cases hprov : isProvAttr p.1 = true
+  · -- single-valued: p.2 = [x.2]
+    have hlen := hs.single p.1 hprov
+    rw [get_of_mem r hs.keys p hp] at hlen
+    obtain ⟨⟨g1, g2, _⟩, _⟩ := stored_ok r hs p hp x.2 hx2
+    have hp2 : p.2 = [x.2] := by
+      match hv : p.2, hlen, hx2 with
+      | [v], _, hx2' =>
+        have : x.2 = v := by simpa using hx2'
+        rw [this]
+    have hmem : ∀ it, it ∈ fItem h c p → it ∈ itemsOf h c r := fun it hit =>
+      List.mem_append_left _ (List.mem_flatMap.mpr ⟨p, hp, hit⟩)
+    by_cases href : isRefAttr p.1 = true
+    · have hq := g1 href
+      cases hxv2 : x.2 with
+      | qn q =>
+        refine ⟨_, hmem ({ name := .qn (nameOf h c p.1), value := .val (.qn (refOf h c q)) }, p.1, .qn q) ?_, hx1.symm, rfl⟩
+        simp [fItem, hp2, hxv2, href]
+      | _ => rw [hxv2] at hq; simp [isQn] at hq
+    · have href0 : isRefAttr p.1 = false := by simpa using href
+      have ht : isTimeAttr p.1 = true := by simpa [isProvAttr, href0] using hprov
+      have hq := g2 ht
+      cases hxv2 : x.2 with
+      | dt t =>
+        refine ⟨_, hmem ({ name := .qn (nameOf h c p.1), value := .val (.dt t) }, p.1, .dt t) ?_, hx1.symm, rfl⟩
+        simp [fItem, hp2, hxv2, href0, ht]
+      | _ => rw [hxv2] at hq; simp [isDt] at hq
+  · have hnp : isProvAttr p.1 = false := by simpa using hprov
+    refine ⟨({ name := .qn (nameOf h c p.1), value := (dvOf h c x.2).value, flt := (dvOf h c x.2).flt }, p.1, x.2),
+      List.mem_append_right _ (List.mem_flatMap.mpr ⟨p, hp, ?_⟩), hx1.symm, rfl⟩
+    simp only [oItem, hnp, Bool.false_eq_true, if_false]
+    exact List.mem_map.mpr ⟨x.2, hx2, rfl⟩
+
+/-- **C01 for one record**: the object the PROV-JSON writer emits for a stored record, whose names all read back in the
+    reading container (the C03 (c) hypothesis, per name) and whose attribute names print differently, is accepted by the
+    reader's loop, and the arguments it hands to `add_attributes` build — in any namespace-manager state, from an empty
+    record — a record with exactly the stored content: every stored (attribute, value) pair is there (same attribute URI,
+    `==`-equal value) and nothing else is -/
+theorem c01_record (h : Heap) (c : Nat) (std : StdNames h c) (r : Record) (hs : Stored r)
+    (hrd : ∀ p ∈ r.attrs, PairReadable h c p)
+    (hpr : r.attrs.Pairwise (fun p q => p.1.print ≠ q.1.print)) :
+    ∃ kvs acc, encodeJsonRecord r = some (.obj kvs) ∧ h.decodeElemAttrs c r.kind kvs {} = .ok acc ∧
+      acc.extraMembers = [] ∧
+      ∀ (par : Option NsMgr) (isColl : Bool) (m : NsMgr), m.Inv1 → ∀ r0 : Record, r0.attrs = [] →
+        ∃ m' r', addAttrsLoop par isColl m r0
+            (acc.formal.map (fun e => { name := .qn e.1, value := e.2 }) ++ acc.other) = (m', r', none) ∧
+          m'.Inv1 ∧ r'.kind = r0.kind ∧ r'.id = r0.id ∧
+          (∀ x ∈ r.flat, ∃ y ∈ r'.flat, y.1.uri = x.1.uri ∧ y.2.keyEq x.2 = true) ∧
+          (∀ y ∈ r'.flat, ∃ x ∈ r.flat, y.1.uri = x.1.uri ∧ y.2.keyEq x.2 = true) := by
+  have henc : encodeJsonRecord r = some (.obj (r.attrs.flatMap entryOf)) := by
+    rw [encodeJsonRecord_eq, enc_fold r.attrs [] (fun p hp => formalOk_of_stored r hs p hp) (by simp) hpr]
+    simp
+  have hdec := dec_fold h c std r.kind r.attrs hrd {} (by simp) (keys_pairwise r hs)
+  refine ⟨_, _, henc, hdec, rfl, ?_⟩
+  intro par isColl m hm r0 hr0
+  have hitem := items_for h c std r hs hrd
+  have hget : ∀ a, r0.get a = [] := fun a => by simp [Record.get, hr0]
+  obtain ⟨m', r', h1, h2, h3, h4, _, h6, h7⟩ := loop_args par isColl (itemsOf h c r) m hm r0
+    (fun it hit => ⟨(hitem it hit).1, (hitem it hit).2.1⟩) (fun it _ _ => hget _) (items_norepeat h c r hs)
+  have hflat0 : r0.flat = [] := by simp [Record.flat, hr0]
+  refine ⟨m', r', ?_, h2, h3, h4, ?_, ?_⟩
+  · rw [← h1, items_args]; simp
+  · intro x hx
+    obtain ⟨it, hit, e1, e2⟩ := items_cover h c r hs x hx
+    obtain ⟨y, hy, hy1, hy2⟩ := h6 it hit
+    exact ⟨y, hy, by rw [hy1, e1], by rw [← e2]; exact hy2⟩
+  · intro y hy
+    rcases h7 y hy with h0 | ⟨it, hit, hu, hk⟩
+    · rw [hflat0] at h0; simp at h0
+    · exact ⟨(it.2.1, it.2.2), (hitem it hit).2.2, hu, hk⟩
+
+/-! ### non-vacuity: the hypotheses of `c01_record` hold for a concrete record in a concrete document -/
+
+/-- a document that declares `ex` -/
+def hEx : Heap := (Heap.empty.newDoc [⟨"ex", "http://example.org/"⟩]).1
+
+theorem readsAs_of_eval (s : String) (q : QName) (h : (hEx.validName 0 (.str s)).2 = some q) : ReadsAs hEx 0 s q.uri :=
+  ⟨q, h, rfl⟩
+
+theorem hEx_std : StdNames hEx 0 where
+  int_ := readsAs_of_eval "xsd:int" ⟨⟨"xsd", xsdUri⟩, "int"⟩ (by decide +kernel)
+  double := readsAs_of_eval "xsd:double" ⟨⟨"xsd", xsdUri⟩, "double"⟩ (by decide +kernel)
+  dateTime := readsAs_of_eval "xsd:dateTime" ⟨⟨"xsd", xsdUri⟩, "dateTime"⟩ (by decide +kernel)
+  anyURI := readsAs_of_eval "xsd:anyURI" ⟨⟨"xsd", xsdUri⟩, "anyURI"⟩ (by decide +kernel)
+  qname := readsAs_of_eval "prov:QUALIFIED_NAME" ⟨⟨"prov", provUri⟩, "QUALIFIED_NAME"⟩ (by decide +kernel)
+
+theorem rcEx_readable : ∀ p ∈ rcEx.attrs, PairReadable hEx 0 p := by
+  intro p hp
+  simp only [rcEx, List.mem_cons, List.mem_nil_iff, or_false] at hp
+  rcases hp with rfl | rfl | rfl | rfl
+  · refine ⟨⟨provQ "entity", by decide +kernel, by decide +kernel⟩, fun _ v more hv => ?_, fun h => absurd h (by decide +kernel),
+      fun h => absurd h (by decide +kernel)⟩
+    simp only [List.cons.injEq] at hv
+    exact ⟨exQ "e", hv.1.symm, readsAs_of_eval "ex:e" (exQ "e") (by decide +kernel)⟩
+  · refine ⟨⟨provQ "activity", by decide +kernel, by decide +kernel⟩, fun _ v more hv => ?_, fun h => absurd h (by decide +kernel),
+      fun h => absurd h (by decide +kernel)⟩
+    simp only [List.cons.injEq] at hv
+    exact ⟨exQ "a", hv.1.symm, readsAs_of_eval "ex:a" (exQ "a") (by decide +kernel)⟩
+  · refine ⟨⟨exQ "k", by decide +kernel, by decide +kernel⟩, fun h => absurd h (by decide +kernel),
+      fun _ h => absurd h (by decide +kernel), fun _ v hv => ?_⟩
+    simp only [List.mem_cons, List.mem_nil_iff, or_false] at hv
+    rcases hv with rfl | rfl
+    · trivial
+    · exact ⟨readsAs_of_eval "ex:T" (exQ "T") (by decide +kernel), by decide +kernel, by decide +kernel, by decide +kernel⟩
+  · refine ⟨⟨provQ "label", by decide +kernel, by decide +kernel⟩, fun h => absurd h (by decide +kernel),
+      fun _ h => absurd h (by decide +kernel), fun _ v hv => ?_⟩
+    simp only [List.mem_cons, List.mem_nil_iff, or_false] at hv
+    subst hv
+    exact ⟨by decide, by decide +kernel⟩
+
+/-- the conclusion of `c01_record` for the example (hypotheses discharged: the theorem is not vacuous) -/
+example := c01_record hEx 0 hEx_std rcEx rcEx_stored rcEx_readable (by decide +kernel)
+
 end Prov.C01
